@@ -45,6 +45,19 @@ CLAIMED = {
             "abstract-group models tied to the C loops by whole-function correspondence; curve parameters read from the running library; known "
             "findings F22 (identity as fixed base), F24 (sim table containing the identity).",
             "DESIGN.md §5 C03"),
+    "C07": ("Lean 4 proofs (integer binary/text conversions round-trip, are canonical, decode only valid values and re-encode to the "
+            "input) + correspondence of integer, field and point decoders/encoders incl. a malformed stream",
+            "Proved in Lean for the model: bn_write_bin/bn_read_bin/bn_size_bin and bn_write_str/bn_read_str/bn_size_str (every radix 2..64): "
+            "decode∘encode = id, the encoding has exactly the requested length and denotes |a| (left-padded), an error exactly when the buffer "
+            "is shorter than the minimal size, decoding any byte string yields a normal-form integer whose re-encoding in the same length "
+            "reproduces the input, text output is positional notation with '-' for negatives and size_str = length + 1. Field and point "
+            "decoders (fp_read_bin, ep_read_bin incl. compressed form, ep_write_bin, ep_size_bin) are compared with a Lean specification of "
+            "the decision logic (lengths, tags, coordinates < p, curve equation, sign-bit convention) on valid and malformed streams for six "
+            "curves; their theorems (Model/EpConv.lean) are in progress. fpN/ep2/eb/ed/gt encodings are not covered yet.",
+            "Trusted: Lean kernel; hand-written models tied by correspondence; util_conv_char's alphabet is part of the model; malformed "
+            "numerals are read up to the first bad character (model-vs-implementation only); the compressed-point sign bit is the low bit "
+            "of the stored Montgomery form on non-pairing curves (the library's own convention, not SEC1).",
+            "DESIGN.md §5 C07"),
     "C09": ("Lean 4 proofs (every scalar recoding represents exactly its input with the promised digit set, length and sparsity; fuel "
             "sufficiency) + correspondence of all number-theoretic functions against their mathematical definitions at w=64 and w=8",
             "Proved in Lean for the model: bn_rec_win / slw / naf (any width) / reg / jsf return digit strings whose value is exactly the "
